@@ -557,6 +557,8 @@ func runC13(r *Report, tier string) {
 	}
 	checkStructureEncodersIV(r, "R13.2")
 	checkUnprotectedEncoderTagFree(r, "R13.2")
+	r.rule("R08.7", "(shared with C08) what a bucket encoder emits has passed a full generic decode under the decoder's mode options: a header set accepted on encode is not refused on decode for a value the decode mode rejects (integers beyond int64, invalid UTF-8 text or text labels).")
+	checkBucketEncoderValueClosure(r, "R08.7")
 	// the IV check itself: both directions
 	{
 		np := 0
@@ -784,9 +786,131 @@ func checkUnprotectedEncoderTagFree(r *Report, rule string) {
 				ok = true
 			}
 		}
+		for _, m := range fs.matchAll([]factPat{fp(okp("call<invoke:cbor.DecMode.Unmarshal>(%M, %B, %D)"))}, nil) {
+			if g, isM := P.isModeLoad(m["M"], false); isM && envForbids[g] && (m["B"].eq(x.results[0]) || m["B"].eq(b)) {
+				ok = true // a full decode under that mode checks well-formedness (and the tag restriction) first
+			}
+		}
 		o.check(ok, "ok(tags-forbidden mode.Wellformed(result))", "the encoder returns "+truncate(x.results[0].String(), 100)+" without checking it under the tags-forbidden envelope mode: a header value that encodes to a CBOR tag is emitted, and every structure decoder then refuses the library's own output")
 	}
 	r.floor(rule, n, 1, "non-constant success exits of the unprotected bucket encoder")
+}
+
+// checkBucketEncoderValueClosure (R08.7): header values are arbitrary Go
+// values, so no static argument bounds what the generic encoder emits for
+// them; the bucket decoders, however, read the map under decode modes that
+// refuse some well-formed CBOR (integers beyond int64 under IntDecConvertSigned,
+// text that is not valid UTF-8, byte-string map keys, ...). The only way the
+// encoder's output can be closed under the decoder is that the encoded map has
+// passed a full generic decode under such a mode before it is returned (D7).
+// Decided per success path of the two bucket encoders: every encoded header
+// map (Marshal of a map-typed value) inside the returned bytes is the source
+// of a successful Unmarshal into a generic destination under a package decode
+// mode whose options, TagsMd apart, equal those of every decode mode the
+// bucket's own decoder reaches.
+func checkBucketEncoderValueClosure(r *Report, rule string) {
+	P := r.P
+	decCfg := map[string]*modeConfig{}
+	for _, mc := range P.modeConfigs() {
+		if !mc.enc && mc.global != "" {
+			decCfg[mc.global] = mc
+		}
+	}
+	sameApartFromTags := func(a, b *modeConfig) bool {
+		if len(a.unknown) > 0 || len(b.unknown) > 0 {
+			return false
+		}
+		for k, v := range a.opts {
+			if k != "TagsMd" && b.opts[k] != v {
+				return false
+			}
+		}
+		for k, v := range b.opts {
+			if k != "TagsMd" && a.opts[k] != v {
+				return false
+			}
+		}
+		return true
+	}
+	generic := []string{"*map[any]any", "*map[interface{}]interface{}", "*any", "*interface{}"}
+	total := 0
+	for _, tn := range []string{"ProtectedHeader", "UnprotectedHeader"} {
+		T := P.mustNamed(tn)
+		enc := P.methodOf(T, "MarshalCBOR")
+		dec := P.methodOf(T, "UnmarshalCBOR")
+		if enc == nil || dec == nil {
+			undecidedf("anchor not found: %s.MarshalCBOR / UnmarshalCBOR", tn)
+		}
+		// decode modes the bucket's decoder reaches
+		used := map[string]bool{}
+		for f := range P.reachable([]*ssa.Function{dec}) {
+			for _, ci := range callsIn(f, nil) {
+				c := ci.Common()
+				if c.IsInvoke() && isCBORMode(c.Value.Type()) && (c.Method.Name() == "Unmarshal" || c.Method.Name() == "Wellformed") {
+					if g, ok := P.isModeLoad(P.terms.of(c.Value), false); ok {
+						used[g] = true
+					}
+				}
+			}
+		}
+		if len(used) == 0 {
+			undecidedf("no decode mode found below %s.UnmarshalCBOR", tn)
+		}
+		for _, p := range P.allPaths(enc) {
+			if !p.feasible() {
+				continue
+			}
+			fs := factSet{}
+			for _, c := range p.conds {
+				fs.add(c)
+			}
+			res := p.results()
+			if k, _ := P.classifyErr(res[1], fs); k == exitFailure {
+				continue
+			}
+			// encoded maps inside the returned bytes
+			var maps []*Term
+			seen := map[string]bool{}
+			P.resolveValue(res[0]).walk(func(u *Term) {
+				if b, ok := unify(mustPat("res<0>(call<invoke:cbor.EncMode.Marshal>(%E, iface<%>(%H)))"), u, bindings{}); ok {
+					if u.Args[0].Args[1].Op == "iface" && strings.HasPrefix(u.Args[0].Args[1].S, "map[") && !seen[u.String()] {
+						_ = b
+						seen[u.String()] = true
+						maps = append(maps, u)
+					}
+				}
+			})
+			for _, m := range maps {
+				total++
+				o := r.ob(rule, shortFn(enc)+":decodable:"+pathID(p), enc, p.ret, "the encoded header map has passed a full generic decode under the bucket decoder's mode options before it is returned")
+				ok, why := false, "no successful DecMode.Unmarshal of the encoded map into a generic destination on this path"
+				for _, dt := range generic {
+					for _, b := range fs.matchAll([]factPat{fp(okp("call<invoke:cbor.DecMode.Unmarshal>(%M, %B, iface<" + dt + ">(%D))"))}, nil) {
+						if !(b["B"].eq(m) || P.resolveValue(b["B"]).eq(m)) {
+							continue
+						}
+						g, isM := P.isModeLoad(b["M"], false)
+						if !isM || decCfg[g] == nil {
+							why = "the trial decode does not use a package decode mode with constant options"
+							continue
+						}
+						agree := true
+						for u := range used {
+							if decCfg[u] == nil || !sameApartFromTags(decCfg[g], decCfg[u]) {
+								agree = false
+								why = "the trial decode's mode " + g + " differs from the decoder's mode " + u + " in options other than TagsMd"
+							}
+						}
+						if agree {
+							ok = true
+						}
+					}
+				}
+				o.check(ok, "ok(decode mode.Unmarshal(encoded map, *generic))", "the encoder returns "+truncate(m.String(), 90)+" unchecked: "+why+" - a header value or text label the generic encoder accepts but the library's decode mode refuses (uint64 >= 2^63, invalid UTF-8 text) is emitted, and the library's own decoder then refuses the output")
+			}
+		}
+	}
+	r.floor(rule, total, 2, "encoded header maps on success paths of the bucket encoders")
 }
 
 // isWireStructPtr: *T (possibly wrapped in an interface at the call) with T a wire struct.
